@@ -171,14 +171,17 @@ struct Impl : Drv {
         if (!p) return true;
         return (const unsigned char *)p >= (unsigned char *)work && (const unsigned char *)p < (unsigned char *)work + lwork_cur;
     }
+    std::string lu_outside_which;
     bool lu_inside() {
+        lu_outside_which.clear();
         if (lwork_cur <= 0 || !haveLU) return true;
         SCPformat *Ls = (SCPformat *)L.Store; NCPformat *Us = (NCPformat *)U.Store;
         if (!Ls || !Us) return true;
-        return inside_work(Ls->nzval) && inside_work(Ls->rowind) && inside_work(Ls->nzval_colbeg) && inside_work(Ls->nzval_colend) &&
-               inside_work(Ls->rowind_colbeg) && inside_work(Ls->rowind_colend) && inside_work(Ls->col_to_sup) &&
-               inside_work(Ls->sup_to_colbeg) && inside_work(Ls->sup_to_colend) &&
-               inside_work(Us->nzval) && inside_work(Us->rowind) && inside_work(Us->colbeg) && inside_work(Us->colend);
+        struct { const char *n; const void *p; } a[] = {{"L.nzval", Ls->nzval}, {"L.rowind", Ls->rowind}, {"L.nzval_colbeg", Ls->nzval_colbeg}, {"L.nzval_colend", Ls->nzval_colend},
+            {"L.rowind_colbeg", Ls->rowind_colbeg}, {"L.rowind_colend", Ls->rowind_colend}, {"L.col_to_sup", Ls->col_to_sup}, {"L.sup_to_colbeg", Ls->sup_to_colbeg},
+            {"L.sup_to_colend", Ls->sup_to_colend}, {"U.nzval", Us->nzval}, {"U.rowind", Us->rowind}, {"U.colbeg", Us->colbeg}, {"U.colend", Us->colend}};
+        for (auto &e : a) if (!inside_work(e.p)) { lu_outside_which += e.n; lu_outside_which += ' '; }
+        return lu_outside_which.empty();
     }
 
     void fill_opts(const XOpts &o) {
@@ -208,6 +211,7 @@ struct Impl : Drv {
         if (o.fact != FACTORED && o.lwork != -1) haveLU = (info >= 0 && (info <= n + 1));
         out.work_guard_ok = guards_ok();
         out.lu_inside_work = lu_inside();
+        out.lu_outside_which = lu_outside_which;
     }
 
     long call_gstrf_route(const XOpts &o, bool do_solve) override {
